@@ -5,6 +5,10 @@ read the produced .ods back.  stdin: one JSON job, stdout: one JSON result.
 
 job = {"multi": <multi-asset case, see l5.gen_multi>, "generator": "rp2_full_report" | "open_positions" |
        "tax_report_us" | "tax_report_ie" | "tax_report_jp", "extra_ini": "..."}
+Optional end-to-end input: job["input"] = "ods" with job["ini"] (text of the configuration file) and job["sheets"]
+({asset: rows of cell values}): the files are written to disk and every asset's InputData comes from
+Configuration + open_ods + parse_ods (exactly as rp2_main does) instead of the constructors; the result then also carries
+"parsed": {asset: {"ins"/"outs"/"intras": the parsed transactions, each with its row id, in set order}}.
 """
 import json
 import os
@@ -48,6 +52,33 @@ def read_ods(path):
     return sheets
 
 
+def dump_parsed(input_data, exchanges, holders):
+    """every transaction of a parsed InputData with the fields the parser gave it (amounts in 1e-11 units, fiat as exact
+    (m, e) pairs), in the iteration order of the unfiltered sets"""
+    from datetime import datetime, timedelta, timezone
+    from harness import hist, impl
+    epoch = datetime(1970, 1, 1, tzinfo=timezone.utc)
+    P = lambda x: list(impl.norm_pair(*impl.dec_pair(x)))  # noqa: E731
+    ts = lambda t: [(t - epoch) // timedelta(microseconds=1), int(t.utcoffset().total_seconds())]  # noqa: E731
+    d = {"ins": [], "outs": [], "intras": []}
+    for t in input_data.unfiltered_in_transaction_set:
+        d["ins"].append({"row": t.row, "ts": ts(t.timestamp), "exch": exchanges.index(t.exchange), "holder": holders.index(t.holder),
+                         "type": t.transaction_type.name, "spot": hist.units(t.spot_price), "crypto_in": hist.units(t.crypto_in),
+                         "crypto_fee_parsed": hist.units(t.crypto_fee), "fiat": [P(t.fiat_in_no_fee), P(t.fiat_in_with_fee), P(t.fiat_fee)],
+                         "uid": t.unique_id, "notes": t.notes})
+    for t in input_data.unfiltered_out_transaction_set:
+        d["outs"].append({"row": t.row, "ts": ts(t.timestamp), "exch": exchanges.index(t.exchange), "holder": holders.index(t.holder),
+                          "type": t.transaction_type.name, "spot": hist.units(t.spot_price), "crypto_out_no_fee": hist.units(t.crypto_out_no_fee),
+                          "crypto_fee": hist.units(t.crypto_fee), "crypto_out_with_fee_parsed": hist.units(t.crypto_out_with_fee),
+                          "fiat": [P(t.fiat_out_no_fee), P(t.fiat_fee)], "uid": t.unique_id, "notes": t.notes})
+    for t in input_data.unfiltered_intra_transaction_set:
+        d["intras"].append({"row": t.row, "ts": ts(t.timestamp), "from_exch": exchanges.index(t.from_exchange),
+                            "from_holder": holders.index(t.from_holder), "to_exch": exchanges.index(t.to_exchange),
+                            "to_holder": holders.index(t.to_holder), "spot": hist.units(t.spot_price), "crypto_sent": hist.units(t.crypto_sent),
+                            "crypto_received": hist.units(t.crypto_received), "fiat": [P(t.fiat_fee)], "uid": t.unique_id, "notes": t.notes})
+    return d
+
+
 def main():
     job = json.load(sys.stdin)
     multi = job["multi"]
@@ -70,8 +101,25 @@ def main():
         country = impl.country_obj(multi["country"], multi.get("env"))
         names = [a["asset"] for a in multi["assets"]]
         ex, ho = multi["exchanges"], multi["holders"]
-        cfg = impl.make_config(country, names, ex, ho, multi.get("from"), multi.get("to"), multi.get("allow_neg", False),
-                               extra_ini=job.get("extra_ini", ""))
+        handle = None
+        if job.get("input") == "ods":
+            # end-to-end: real files, parsed by rp2 itself
+            from harness import l1
+            from rp2.configuration import Configuration, MIN_DATE, MAX_DATE
+            from rp2.ods_parser import open_ods, parse_ods
+            ini_path, ods_path = os.path.join(tmp, "e2e.ini"), os.path.join(tmp, "e2e.ods")
+            with open(ini_path, "w", encoding="utf-8") as f:
+                f.write(job["ini"])
+            l1.write_ods(ods_path, job["sheets"])
+            cfg = Configuration(ini_path, country,
+                                from_date=MIN_DATE if multi.get("from") is None else impl.date_of_day(multi["from"]),
+                                to_date=MAX_DATE if multi.get("to") is None else impl.date_of_day(multi["to"]),
+                                allow_negative_balances=multi.get("allow_neg", False))
+            handle = open_ods(cfg, ods_path)
+            res["parsed"] = {}
+        else:
+            cfg = impl.make_config(country, names, ex, ho, multi.get("from"), multi.get("to"), multi.get("allow_neg", False),
+                                   extra_ini=job.get("extra_ini", ""))
         tree = AVLTree()
         y2m = {}
         for y, m in multi["sched"]:
@@ -83,6 +131,15 @@ def main():
         dumps = {}
         for case in sorted(multi["assets"], key=lambda c: c["asset"]):
             a = case["asset"]
+            if handle is not None:
+                input_data = parse_ods(cfg, a, handle)
+                res["parsed"][a] = dump_parsed(input_data, ex, ho)
+                computed = compute_tax(cfg, engine, input_data)
+                a2c[a] = computed
+                dumps[a] = hist.dump(computed, full=True)
+                dumps[a]["all_fractions"] = [[g.taxable_event.row, g.acquired_lot.row if g.acquired_lot else None, hist.units(g.crypto_amount)]
+                                             for g in computed.gain_loss_set._entry_list]  # noqa: SLF001
+                continue
             in_set = TransactionSet(cfg, "IN", a)
             out_set = TransactionSet(cfg, "OUT", a)
             intra_set = TransactionSet(cfg, "INTRA", a)
